@@ -173,16 +173,29 @@ func (c *Cache) Watch(
 		// Create/Get Informer
 		informer, _, err := c.informerMap.Get(ctx, gvk, uns)
 		if err != nil {
+			c.forgetFailedInformer(ctx, gvk)
 			return fmt.Errorf("getting informer from InformerMap: %w", err)
 		}
 
 		// ensure to add all event handlers to the new informer
 		if err := c.cacheSource.handleNewInformer(informer); err != nil {
+			c.forgetFailedInformer(ctx, gvk)
 			return fmt.Errorf("registering EventHandlers for %v: %w", gvk, err)
 		}
 	}
 
 	return nil
+}
+
+// forgetFailedInformer rolls back the bookkeeping of a Watch call whose informer could not be started
+// or could not be wired to the event handlers, so that the next Watch call starts over
+// instead of assuming a fully set up informer exists.
+// Must be called with informerReferencesMux held.
+func (c *Cache) forgetFailedInformer(ctx context.Context, gvk schema.GroupVersionKind) {
+	delete(c.informerReferences, gvk)
+	if err := c.informerMap.Delete(ctx, gvk); err != nil {
+		logr.FromContextOrDiscard(ctx).Error(err, "releasing informer after failed start", "gvk", gvk.String())
+	}
 }
 
 // Free all watches associated with the given owner.
